@@ -16,8 +16,13 @@ impl Serialize for BigInt {
                     serializer.write_unsigned_integer(*u64_digits.first().unwrap())
                 }
                 // nint
-                num_bigint::Sign::Minus => serializer
-                    .write_negative_integer(-(*u64_digits.first().unwrap() as i128) as i64),
+                num_bigint::Sign::Minus => {
+                    let digit = *u64_digits.first().unwrap();
+                    serializer.write_negative_integer_sz(
+                        -(digit as i128),
+                        cbor_event::Sz::canonical(digit - 1),
+                    )
+                }
             },
             _ => {
                 // Small edge case: nint's minimum is -18446744073709551616 but in this bigint lib
